@@ -23,6 +23,33 @@ fn main() {
     }
     let mode = args[1].clone();
     let prop = args[2].clone();
+    if mode == "observe" {
+        // vcheck observe <file> [reps]: print what C10's in-process observer sees (debugging aid)
+        let src = std::fs::read_to_string(&prop).expect("read file");
+        let reps: usize = args.get(3).and_then(|s| s.parse().ok()).unwrap_or(4);
+        let mut ctx = Ctx::new("C10", Tier::Quick, 1, 0, 1, "dbg");
+        for _ in 0..reps {
+            let o = rrss_verif::props::c10::observe(&src, b"", &mut ctx);
+            if let Some((obs, orders)) = o {
+                println!("{:?} {} raw={:?}", String::from_utf8_lossy(&obs.stdout), obs.result, orders);
+            }
+        }
+        return;
+    }
+    if mode == "emit" {
+        // vcheck emit <PROP> --out DIR --seed N --n K : write case files for process-level stages
+        let dir = arg(&args, "--out").unwrap_or(".").to_string();
+        let seed: u64 = arg(&args, "--seed").and_then(|s| s.parse().ok()).unwrap_or(1);
+        let n: usize = arg(&args, "--n").and_then(|s| s.parse().ok()).unwrap_or(10);
+        match prop.as_str() {
+            "C10" => rrss_verif::props::c10::emit(&dir, seed, n),
+            _ => {
+                eprintln!("emit: unknown property {}", prop);
+                std::process::exit(2);
+            }
+        }
+        return;
+    }
     let tier = match arg(&args, "--tier").unwrap_or("quick") {
         "thorough" => Tier::Thorough,
         _ => Tier::Quick,
